@@ -471,15 +471,15 @@ func c15Wrappers(c *Ctx) {
 
 func c15Parser(c *Ctx) {
 	ge := NewGuardEngine(c.P, c.Depth)
-	set := "call (*math/big.Int).SetString(…, {string}, const:10)"
+	set := "call (math/big.Int).SetString(…, {string}, const:10)"
 	tab := []GuardReq{
 		req("hastings:integer", "types.parseHastings", set+"#1", opF, "", "text that is not a base-10 integer is rejected"),
-		req("hastings:non-negative", "types.parseHastings", "call (*math/big.Int).Sign("+set+"#0)", opLT, "const:0", "negative values are rejected"),
-		req("hastings:128-bit", "types.parseHastings", "call (*math/big.Int).BitLen("+set+"#0)", opGT, "const:128", "values above 2^128-1 are rejected"),
+		req("hastings:non-negative", "types.parseHastings", "call (math/big.Int).Sign("+set+"#0)", opLT, "const:0", "negative values are rejected"),
+		req("hastings:128-bit", "types.parseHastings", "call (math/big.Int).BitLen("+set+"#0)", opGT, "const:128", "values above 2^128-1 are rejected"),
 		req("currency:has-number", "types.ParseCurrency", "(call strings.LastIndexAny({string}, const:\"0123456789.\") + const:1)", opEQ, "const:0", "text without a number is rejected"),
-		req("currency:number-parses", "types.ParseCurrency", "call (*math/big.Rat).SetString(…)#1", opF, "", "a malformed decimal is rejected", "…"),
+		req("currency:number-parses", "types.ParseCurrency", "call (math/big.Rat).SetString(…)#1", opF, "", "a malformed decimal is rejected", "…"),
 		req("currency:known-unit", "types.ParseCurrency", "ok:global types.currencyUnits[…]", opF, "", "an unknown unit is rejected", "…"),
-		req("currency:integral-hastings", "types.ParseCurrency", "call (*math/big.Rat).IsInt(…)", opF, "", "a value that is not a whole number of hastings after scaling is rejected", "…"),
+		req("currency:integral-hastings", "types.ParseCurrency", "call (math/big.Rat).IsInt(…)", opF, "", "a value that is not a whole number of hastings after scaling is rejected", "…"),
 	}
 	runGuardTable(c, "parser", ge, tab)
 	// every non-zero result of ParseCurrency comes out of parseHastings
